@@ -81,7 +81,13 @@ def solo(text, k):
 
 
 CLASH = ["typedef int T; T x; void f(void){ T * y; { int T; T * 3; } }", "int T; void g(void){ T * 2; { typedef char T; T z; } }",
-         "typedef char U; # 9 \"u.c\"\nU a, b; struct S { U T; } s;", "void T(void){ } int U = sizeof(T);", "typedef int T, U; T f(U T){ return T; } @"]
+         "typedef char U; # 9 \"u.c\"\nU a, b; struct S { U T; } s;", "void T(void){ } int U = sizeof(T);", "typedef int T, U; T f(U T){ return T; } @",
+         # constructs whose tokens are NOT pre-buffered by the declarator lookahead: every token fetch inside them is a switch point
+         "void f(void){ x = (char * const * volatile *) y + sizeof(int **); z = (long *[2]){0, 0}; }",
+         "int g(void){ return sizeof(struct S *) + (unsigned) (T * *) p + _Alignof(char *); }",
+         "void h(int (*cb)(char *, int **), void *(*alloc)(unsigned long)) { cb((char *) 0, (int **) 0); }",
+         "# 5 \"a.h\"\nint a1;\n# 7\nint a2;\n#line 20\nint a3; void k(void){ a1 = (int) sizeof(a2 ? (short *) 0 : (short *) 1); }",
+         "#line 3\nint b1;\n# 9 \"b.h\"\nint b2;\n#line 3\nint b3;"]
 
 
 def run(ctx, b, broken):
